@@ -268,7 +268,8 @@ def st_join(draw):
         elif miss_kind == "spread":
             # every other feature of the sorted base list at most
             cand = base_sorted[draw(st.integers(0, 1))::2]
-            drops = set(draw(st.lists(st.sampled_from(cand), max_size=3, unique=True)))
+            drops = set(draw(st.lists(st.sampled_from(cand), max_size=3, unique=True))) \
+                if cand else set()
         elif miss_kind in ("any", "computable"):
             drops = set(draw(st.lists(st.sampled_from(base_sorted), max_size=3,
                                       unique=True)))
